@@ -5,7 +5,7 @@
     (instance obligations, vm_compute).  The FGD grammar itself is not modelled (search only). *)
 From Coq Require Import List NArith Arith Bool String.
 From SV Require Import Fmt.LongString Fmt.LongStringProofs Fmt.FgdBin Fmt.FgdBinProofs SM.LazyDb SM.LazyDbProofs.
-From SV Require Import Fmt.FgdBinEnt Fmt.FgdBinEntProofs Fmt.FgdLine Fmt.FgdLineProofs.
+From SV Require Import Fmt.FgdBinEnt Fmt.FgdBinEntProofs Fmt.FgdLine Fmt.FgdLineProofs Fmt.FgdLineTextProofs.
 From SV Require Import Gen.FgdConsts_gen.
 Import ListNotations.
 Open Scope N_scope.
@@ -174,6 +174,34 @@ Theorem c16_resources_roundtrip :
   = Some (res, match res with Some _ => TNl :: TBrClose :: rest | None => TBrClose :: rest end).
 Proof. exact res_roundtrip. Qed.
 
+(** Character level and token level joined.  The STRING tokens of a text as _write_longstring writes it
+    ([token_sections]: Tokenizer._handle_string on every section): there is at least one, every section is a complete
+    string body, and the token values concatenate to the text. *)
+Theorem c16_longstring_token_sections : forall t excl, table_ok t excl = true -> forall cfg ext text, cfg_ok cfg = true ->
+  (ext = false -> std_safe text = true) ->
+  token_sections t excl cfg ext text <> []
+  /\ List.concat (token_sections t excl cfg ext text) = text
+  /\ Forall (fun sec => exists o, run t Plain sec = Some (Plain, o)) (sections cfg (fgd_escape t excl ext text)).
+Proof. exact token_sections_spec. Qed.
+
+(** ... so a keyvalue line whose display name and description went through _write_longstring — any length, any
+    characters (plain syntax: without quote, backslash, CR) — is parsed back to exactly that display name and that
+    description (plus name, tags, type, readonly, report, default). *)
+Theorem c16_kv_line_text_roundtrip :
+  forall (tag_norm : str -> str) (tags_valid : list str -> bool) (vt : Type) (vt_text : vt -> str) (vt_lookup : str -> option (bool * vt))
+         (vt_is_bool vt_is_flags vt_is_choices : vt -> bool) (dec : N -> str) (undec : str -> option N) (pow2 : N -> bool) (lcfg : line_cfg),
+  (forall v, vt_lookup (vt_text v) = Some (false, v)) -> colons_before_desc_without_default lcfg = 2%nat ->
+  forall t excl, table_ok t excl = true -> forall cfg, cfg_ok cfg = true ->
+  forall (label custom : bool) name tags ty ro rep disp dflt desc rest,
+  (custom = false -> std_safe disp = true /\ std_safe desc = true) ->
+  let k := mk_kvl vt name tags ty ro rep (token_sections t excl cfg custom disp) dflt (token_sections t excl cfg custom desc) NoList in
+  tags_wf tag_norm tags_valid tags -> vt_is_flags ty = false -> vt_is_choices ty = false ->
+  yes_no vt vt_is_bool ty (default_written vt vt_is_bool lcfg k) = default_written vt vt_is_bool lcfg k -> ends_line rest ->
+  kv_parse tag_norm tags_valid vt vt_lookup vt_is_bool vt_is_flags vt_is_choices dec undec pow2 name
+    (List.tl (kv_toks vt vt_text vt_is_bool vt_is_flags dec lcfg label custom k) ++ rest)
+  = Some (mk_kvl vt name (seen_tags custom tags) ty ro rep [disp] (default_written vt vt_is_bool lcfg k) [desc] NoList, rest).
+Proof. exact kv_line_text_roundtrip. Qed.
+
 (** One concrete instance (non-vacuity, and the refutations of the other writer branches). *)
 Inductive xvt := XString | XBool | XFlags | XChoices.
 Definition x_text (v : xvt) : str := match v with XString => [115] | XBool => [98] | XFlags => [102] | XChoices => [99] end.
@@ -293,6 +321,16 @@ Theorem c16_block_dictionary_inverts : forall (A : Type) (eqb : A -> A -> bool),
   forall base own shared, List.length base = shared ->
   forall s p, dict_enc A eqb base own shared s = Some p -> dict_dec A base own p = Some s.
 Proof. exact dict_enc_dec. Qed.
+
+(** the file header ('FGD', version, block count, per block: class names, position, size) reads back, and reading
+    `size` bytes at `off` for the positions serialise() fills in returns every block's data *)
+Theorem c16_db_header_roundtrip : forall version positions0 bs rest, header_ser version positions0 = Some bs ->
+  header_unser version (bs ++ rest) = Some (positions0, rest).
+Proof. exact header_roundtrip. Qed.
+Theorem c16_block_positions_slices : forall (blocks : list (list N * list N)) pre post,
+  Forall2 (fun p blk => slice (pre ++ List.concat (map snd blocks) ++ post) (bp_off p) (bp_size p) = snd blk /\ bp_names p = fst blk)
+          (positions (N.of_nat (List.length pre)) blocks) blocks.
+Proof. exact positions_slices. Qed.
 
 (** the generated tables satisfy the premises of c16_ent_bin_roundtrip *)
 Definition bin_tables_ok : bool :=
